@@ -18,6 +18,22 @@ CLAIMED = {
             "Trusts TLC, the Go runtime, the harness's JSON bridge and structural comparison; Def.tla is written from "
             "the mal guide/README, validated against the step files; programs beyond the bound are only sampled.",
             "§8 C01"),
+    "C13": ("TLA+ definition of every collection builtin (Coll.tla) as a total operator; TLC enumerates builtin x "
+            "argument tuples; each is replayed as (f 'a1 ..) through lisp.EVAL and compared with the allowed outcome",
+            "Exhaustive small-scope conformance of 49 builtins against the abstract sequence/map/set model: every "
+            "argument tuple of arity 0..2 over a 33-value pool, arity 3 over a pool prefix (80k-250k calls); value "
+            "(kind-exact, unordered results as multisets), error where the model says error; the oracle abstains "
+            "where README/step files/mal guide are silent.",
+            "Trusts TLC and the harness bridge; Coll.tla transcribes the documented behaviour (validated against the "
+            "step files); argument values beyond the pool are not explored.",
+            "§8 C13"),
+    "C14": ("TLA+ structural equality (Values.StructEq) decides every ordered pair of a pool of values built along "
+            "different construction paths, TLC checks StructEq is an equivalence on the pool, the real (= a b) is "
+            "replayed for every pair, and the OBSERVED matrix is validated by TLC (TraceEq.tla) as an equivalence",
+            "Exhaustive over 72x72 ordered pairs incl. nil-valued maps, key-presence differences, kind confusions; "
+            "plus trace validation of the observed relation (reflexive/symmetric/transitive over all triples).",
+            "Trusts TLC, the harness bridge; pool-bounded.",
+            "§8 C14"),
 }
 
 NOT_YET = "check not built yet in this round (planned in DESIGN.md §8; the specification module exists or is in progress)"
